@@ -99,6 +99,22 @@ def run(ctx, rep):
             if r and r[0] == "global":
                 table = (r[1], r[2])
     if table is None:
+        # spelled  TABLE.get(symbol)  /  TABLE[symbol]
+        for n in own_nodes(mod.node):
+            nm = None
+            if isinstance(n, ast.Call) and isinstance(n.func, ast.Attribute) and n.func.attr == "get" and isinstance(n.func.value, ast.Name) and n.args:
+                nm = n.func.value.id
+            elif isinstance(n, ast.Subscript) and isinstance(n.value, ast.Name) and isinstance(n.ctx, ast.Load) and not isinstance(n.slice, ast.Slice):
+                nm = n.value.id
+            if nm is not None and nm not in mod.locals:
+                r = ctx.db.resolve_global(mod.module, nm)
+                if r and r[0] == "global":
+                    try:
+                        if isinstance(fo.global_value(r[1], r[2]), dict):
+                            table = (r[1], r[2])
+                    except Exception:
+                        pass
+    if table is None:
         raise AnalysisError("update table of modernize_symbol not found")
     got = fo.global_value(*table)
     want = SPEC.legacy_table()
